@@ -148,6 +148,11 @@ def run_history(c, tmp, idx):
                 crop = ss[who].Crop(name=f"c{step}", parent_dir=d, batchsize=rng.randint(1, 3))
                 crop.sow_samples(n, combos=combos, verbosity=0, **kc)
                 crop.grow_missing(verbosity=0)
+                if rng.random() < 0.25:
+                    # sown again before reaping: NEW samples are drawn, the rows reaped are theirs
+                    steps[-1].append("resown")
+                    crop.sow_samples(n, combos=combos, verbosity=0, **kc)
+                    crop.grow_missing(verbosity=0)
                 last = crop.reap()
             else:
                 ss[who] = new_sampler()
